@@ -9,7 +9,7 @@ def run(tier):
     out.assumptions = ['byte length of the real output compared with the configured size; the model finds the boundary configurations',
                        'engine level: every Flush of recorded sessions over programs with an output size (paged sinks, menus, error prefix, exit value)']
     # engine level: whatever Flush hands out fits
-    f = vise.Family(PID, tier, [], ['C01_FlushFits'], ['pages'], modes=('L', 'P'), matcher=vise.known_matcher(PID))
+    f = vise.Family(PID, tier, [], ['C01_FlushFits'], ['pages', 'inline'], modes=('L', 'P'), matcher=vise.known_matcher(PID))
     f.out = out
     out.stage('engine level: known-finding canonical case'); f.known_cases()
     out.stage('engine level: model histories of the paged program'); f.replay_model(5 if f.thorough else 4)
